@@ -114,6 +114,13 @@ pub fn check_cmp(o: &CmpObs, a: &Value, b: &Value, rep: &mut DeclReport) {
             (Ok(_), None) => {}
         }
     }
+    if let Some((got, want)) = &o.clone_from {
+        rep.executions += 1;
+        rep.class("clone_from");
+        if got != want {
+            rep.violate("view-differs:Clone::clone_from", input.clone(), got.show(), want.show(), String::new());
+        }
+    }
     if let Some(h) = o.outer.hash_a {
         rep.executions += 1;
         rep.class("hash");
